@@ -183,18 +183,19 @@ structure Blk where
   no : Nat
 deriving DecidableEq, Repr
 
-/-- `FetchTask`. `peer` is the `SyncPeer.No` of the peer it runs on. -/
-structure Task where
-  startNo : Nat
-  hashes : List Nat
-  peer : Option Nat
-  retry : Nat
-  age : Nat
-deriving DecidableEq, Repr
-
+/-- `SyncPeer` (its `ID` is determined by `No`). -/
 structure Peer where
   no : Nat
   failCnt : Nat
+deriving DecidableEq, Repr
+
+/-- `FetchTask`. `peer` is the `*SyncPeer` it runs on (nil while queued). -/
+structure Task where
+  startNo : Nat
+  hashes : List Nat
+  peer : Option Peer
+  retry : Nat
+  age : Nat
 deriving DecidableEq, Repr
 
 /-- `ConnectTask`. -/
@@ -299,7 +300,7 @@ def validChunk (err : Bool) (blocks : List Blk) : Bool :=
 
 /-- `FetchTask.isMatched`. -/
 def isMatched (t : Task) (peer : Nat) (blocks : List Blk) : Bool :=
-  t.hashes.length == blocks.length && t.peer == some peer && t.hashes == blocks.map (·.hash)
+  t.hashes.length == blocks.length && t.peer.map (·.no) == some peer && t.hashes == blocks.map (·.hash)
 
 /-- `findFinished`: remove and return the first running task that matches. -/
 def findTask (p : Task → Bool) : List Task → Option (Task × List Task)
@@ -315,14 +316,262 @@ def pushRetry : List Task → Task → List Task
   | [], t => [t]
   | c :: r, t => if t.startNo < c.startNo then t :: c :: r else c :: pushRetry r t
 
-/-- `processFailedTask(task, false)` (with `PeerSet.processPeerFail`). The failed peer is
-identified by the task; its fail count lives with the task's peer record `p`. -/
-def failTask (s : St) (t : Task) (p : Peer) : Except Err St :=
-  let p := { p with failCnt := p.failCnt + 1 }
-  let s := if p.failCnt ≥ maxPeerFailCount then { s with bad := s.bad + 1 }
-           else { s with free := s.free ++ [p] }
-  let t := { t with retry := t.retry + 1, peer := none }
-  let s := { s with retryQ := pushRetry s.retryQ t }
-  if s.total = s.bad then .error .allPeerBad else .ok s
+/-- `processFailedTask(task, false)` with `PeerSet.processPeerFail`: the task's peer gets one more
+failure and goes to the bad list at `MaxPeerFailCount`, otherwise back to the free list; the task
+goes to the retry queue; `ErrAllPeerBad` when every peer is bad. A task without a peer is a nil
+dereference in Go. -/
+def failTask (s : St) (t : Task) : Except Err St :=
+  match t.peer with
+  | none => .error .panic
+  | some p =>
+    let p := { p with failCnt := p.failCnt + 1 }
+    let s := if p.failCnt ≥ maxPeerFailCount then { s with bad := s.bad + 1 }
+             else { s with free := s.free ++ [p] }
+    let t := { t with retry := t.retry + 1, peer := none }
+    let s := { s with retryQ := pushRetry s.retryQ t }
+    if s.total = s.bad then .error .allPeerBad else .ok s
+
+/-- `addNewFetchTasks`: cut a hash set into tasks of at most `maxFetchSize` hashes.
+(`fuel` bounds the loop; `hashes.length` iterations suffice when `size > 0`.) -/
+def cutTasks (size : Nat) : Nat → Nat → List Nat → List Task
+  | 0, _, _ => []
+  | fuel + 1, startNo, hashes =>
+    if hashes.isEmpty then []
+    else
+      let n := if size = 0 then hashes.length else min size hashes.length
+      ⟨startNo, hashes.take n, none, 0, 0⟩ :: cutTasks size fuel (startNo + n) (hashes.drop n)
+
+/-- `searchCandidateTask`. Returns the state (a new hash set may have been taken from `hfCh`) and
+the candidate. When no hash set was ever received and none is waiting the Go code blocks on the
+channel; the model returns no candidate (the step is re-tried when the hash set arrives). -/
+def searchCandidate (s : St) : St × Option Task :=
+  match s.retryQ with
+  | t :: _ => (s, some t)
+  | [] =>
+    match s.pending with
+    | t :: _ => (s, some t)
+    | [] =>
+      match s.hfq with
+      | [] => (s, none)
+      | (startNo, hashes) :: q =>
+        let ts := cutTasks s.cfg.maxFetchSize hashes.length startNo hashes
+        let s := { s with hfq := q, curHashSet := true, pending := ts }
+        (s, ts.head?)
+
+/-- `schedule`: one pass of the `for bf.peers.free > 0` loop per unit of fuel. -/
+def scheduleLoop : Nat → St → Except Err (St × List Out)
+  | 0, s => .ok (s, [])
+  | fuel + 1, s =>
+    match s.free with
+    | [] => .ok (s, [])
+    | p :: free' =>
+      if s.running.length ≥ s.cfg.maxFetchTasks then .ok (s, [])
+      else
+        let (s, cand) := searchCandidate s
+        match cand with
+        | none => .ok (s, [])
+        | some t =>
+          if s.connQ.length ≥ s.cfg.maxPendingConn ∧ t.retry = 0 then .ok (s, [])
+          else if s.total = s.bad then .error .allPeerBad
+          else
+            -- popNextTask + runTask
+            let s := if t.retry > 0 then { s with retryQ := s.retryQ.tail } else { s with pending := s.pending.tail }
+            let t := { t with peer := some p, age := 0 }
+            let s := { s with free := free', running := s.running ++ [t] }
+            match scheduleLoop fuel s with
+            | .error e => .error e
+            | .ok (s, outs) => .ok (s, .fetch p.no t.hashes :: outs)
+
+def schedule (s : St) : Except Err (St × List Out) := scheduleLoop (s.free.length + 1) s
+
+/-- `checkTaskTimeout` after the clock advanced by `d`: running tasks are visited front to back,
+each timed-out one is removed and failed; the first `ErrAllPeerBad` aborts the walk. -/
+def timeoutWalk (s : St) : List Task → List Task → Except Err St
+  | [], keep => .ok { s with running := keep.reverse }
+  | t :: r, keep =>
+    if t.age > s.cfg.timeout then
+      match failTask s t with
+      | .error e => .error e
+      | .ok s => timeoutWalk s r keep
+    else timeoutWalk s r (t :: keep)
+
+def tick (s : St) (d : Nat) : Except Err St :=
+  let run := s.running.map fun t => { t with age := t.age + d }
+  timeoutWalk { s with running := run } run []
+
+/-- `GetBlockChunkRsp` (and `GetBlockChunkRspError`). -/
+def chunkRsp (s : St) (peer : Nat) (err : Bool) (blocks : List Blk) : Except Err (St × List Out) :=
+  if validChunk err blocks then
+    match findTask (fun t => isMatched t peer blocks) s.running with
+    | none => .ok (s, [])                     -- dropped unknown block response
+    | some (t, run) =>
+      let s := { s with running := run }
+      let s := match t.peer with            -- pushFreePeer(task.syncPeer)
+        | some p => { s with free := s.free ++ [p] }
+        | none => s
+      -- addConnectTask
+      let c : ConnTask := ⟨blocks, (blocks.head?.map (·.no)).getD 0, 0⟩
+      connectNext { s with connQ := pushConn s.connQ c }
+  else
+    match findTask (fun t => t.peer.map (·.no) == some peer) s.running with
+    | none => .ok (s, [])                     -- dropped unknown block error message
+    | some (t, run) =>
+      match failTask { s with running := run } t with
+      | .error e => .error e
+      | .ok s => .ok (s, [])
+
+/-- `AddBlockResponse`. -/
+def addRsp (s : St) (no hash : Nat) (err nilHash : Bool) : Except Err (St × List Out) :=
+  if err then .error .rspErr
+  else if nilHash then .error .invalidAdd
+  else
+    match s.curBlock with
+    | none => .error .panic
+    | some cb =>
+      if cb.no ≠ no ∨ cb.hash ≠ hash then .error .invalidAdd
+      else
+        let stopOut : List Out := if cb.no = s.target then [.stop none] else []
+        match connectNext { s with prev := cb, curBlock := none } with
+        | .error e => .error e
+        | .ok (s, outs) => .ok (s, stopOut ++ outs)
+
+/-- Events: what the environment (hash fetcher, peers through P2P, chain service, the ticker) does. -/
+inductive Ev
+  | hashSet (startNo : Nat) (hashes : List Nat)            -- the HashFetcher puts a hash set into hfCh
+  | sched                                                   -- `schedule()`
+  | tick (d : Nat)                                          -- the clock advances by d, then `checkTaskTimeout()`
+  | chunk (peer : Nat) (err : Bool) (blocks : List Blk)     -- GetBlockChunksRsp → `blockProcessor.run`
+  | addRsp (no hash : Nat) (err nilHash : Bool)             -- AddBlockRsp → `blockProcessor.run`
+deriving DecidableEq, Repr
+
+/-- One step. An error makes the run loop call `stopSyncer(err)` and return (`halted`). -/
+def step (s : St) (e : Ev) : St × List Out :=
+  if s.halted then (s, [])
+  else
+    let r : Except Err (St × List Out) :=
+      match e with
+      | .hashSet startNo hashes => .ok ({ s with hfq := s.hfq ++ [(startNo, hashes)] }, [])
+      | .sched => schedule s
+      | .tick d => (tick s d).map fun s => (s, [])
+      | .chunk peer err blocks => chunkRsp s peer err blocks
+      | .addRsp no hash err nilHash => addRsp s no hash err nilHash
+    match r with
+    | .ok x => x
+    | .error e => ({ s with halted := true }, [.stop (some e)])
+
+def run (s : St) : List Ev → St × List Out
+  | [] => (s, [])
+  | e :: es =>
+    let (s1, o1) := step s e
+    let (s2, o2) := run s1 es
+    (s2, o1 ++ o2)
+
+/-- The blocks handed to the chain service, in order. -/
+def delivered : List Out → List Blk
+  | [] => []
+  | .addBlock b :: r => b :: delivered r
+  | _ :: r => delivered r
+
+/-! ## Syncer service: session sequence filter -/
+
+/-- Message kinds `Syncer.Receive`/`handleMessage` distinguish. -/
+inductive MsgKind
+  | syncStart | anchorsRsp | ancestorRsp | finderResult | hashesRsp | hashByNoRsp
+  | blockChunksRsp | addBlockRsp | syncStop | closeFetcher | blockChunksReq | other
+deriving DecidableEq, Repr
+
+/-- Kinds whose message struct carries the session sequence that `verifySeq` compares. -/
+def MsgKind.carriesSeq : MsgKind → Bool
+  | .anchorsRsp | .ancestorRsp | .finderResult | .hashesRsp | .hashByNoRsp
+  | .blockChunksRsp | .syncStop | .closeFetcher => true
+  | _ => false
+
+/-- `verifySeq`. -/
+def verifySeq (cur : Nat) (k : MsgKind) (seq : Nat) : Bool :=
+  if k.carriesSeq then cur == seq else true
+
+/-- Kinds dropped by `Receive` while no session is running. -/
+def MsgKind.garbageWhenIdle : MsgKind → Bool
+  | .ancestorRsp | .finderResult | .hashesRsp | .hashByNoRsp | .blockChunksReq
+  | .blockChunksRsp | .addBlockRsp | .syncStop | .closeFetcher => true
+  | _ => false
+
+/-- Does a message reach its handler? (`Receive` then `handleMessage`/`verifySeq`.) -/
+def accepted (cur : Nat) (running : Bool) (k : MsgKind) (seq : Nat) : Bool :=
+  !(!running && k.garbageWhenIdle) && verifySeq cur k seq
+
+/-- Session-level view of the service: sequence number, running flag, and (while running) the
+session's target. -/
+structure Svc where
+  seq : Nat
+  running : Bool
+  target : Nat
+deriving DecidableEq, Repr
+
+def Svc.init : Svc := ⟨1, false, 0⟩
+
+/-- `handleSyncStart`: ignored while running or when the target is not above the local best. -/
+def Svc.syncStart (v : Svc) (target best : Nat) : Svc :=
+  if v.running then v
+  else if target ≤ best then v
+  else ⟨v.seq + 1, true, target⟩
+
+/-- `Reset` (through an accepted `SyncStop`, a failed `FinderResult`, or a recovered panic). -/
+def Svc.reset (v : Svc) : Svc := if v.running then { v with running := false, target := 0 } else v
+
+/-! ## P2P BlocksChunkReceiver -/
+
+inductive RStatus | waiting | canceled | finished
+deriving DecidableEq, Repr
+
+structure Recv where
+  want : List Nat          -- blockHashes
+  got : List Blk           -- got[0..offset)
+  status : RStatus
+deriving DecidableEq, Repr
+
+inductive RecvErr | remotePeerFail | missingHash | tooMany | unexpected | tooBig | tooFew
+deriving DecidableEq, Repr
+
+inductive RecvOut
+  | nothing
+  | rsp (blocks : List Blk)       -- GetBlockChunksRsp{Blocks, Err: nil}
+  | rspErr (e : RecvErr)          -- GetBlockChunksRsp{Err}
+deriving DecidableEq, Repr
+
+/-- The "add to got" loop of `handleInWaiting`; `big b` = `block.Size() > MaxBlockSize`. -/
+def recvAdd (want : List Nat) (big : Blk → Bool) : List Blk → List Blk → Except RecvErr (List Blk)
+  | got, [] => .ok got
+  | got, b :: r =>
+    match want[got.length]? with
+    | none => .error .tooMany
+    | some h =>
+      if h ≠ b.hash then .error .unexpected
+      else if big b then .error .tooBig
+      else recvAdd want big (got ++ [b]) r
+
+/-- One partial response reaching `ReceiveResp`. -/
+structure Part where
+  timedOut : Bool     -- br.timeout.Before(now)
+  statusOk : Bool     -- body is a ResponseMessage with status OK
+  blocks : List Blk
+  hasNext : Bool
+deriving DecidableEq, Repr
+
+def Recv.receive (r : Recv) (big : Blk → Bool) (p : Part) : Recv × RecvOut :=
+  match r.status with
+  | .canceled => (r, .nothing)
+  | .finished => (r, .nothing)
+  | .waiting =>
+    if p.timedOut then ({ r with status := .finished }, .nothing)
+    else if !p.statusOk then ({ r with status := .finished }, .rspErr .remotePeerFail)
+    else if p.blocks.isEmpty then ({ r with status := .finished }, .rspErr .missingHash)
+    else
+      match recvAdd r.want big r.got p.blocks with
+      | .error e => ({ r with status := if p.hasNext then .canceled else .finished }, .rspErr e)
+      | .ok got =>
+        if p.hasNext then ({ r with got }, .nothing)
+        else if got.length < r.want.length then ({ r with got, status := .finished }, .rspErr .tooFew)
+        else ({ r with got, status := .finished }, .rsp got)
 
 end Aergo.Sync
